@@ -219,7 +219,7 @@ CLAIMS['C17'] = dict(
        'batch and a single index with a single index on every return path; '
        'tt_to_qtt / qtt_to_tt results well formed; e, r forwarded; non-powers of two rejected, powers accepted '
        '(by abstract execution at mode sizes 6, 12, 8, with a symbolic and with even literal left ranks: the rejection '
-       'depends on the mode size alone). '
+       'depends on the mode size alone); the rejection test of the three quantised entry points is 2**q != n, not a one-sided comparison. '
        'The first unfolding of core_tt_to_qtt enumerates (left rank, mode) with the left rank fastest; a single QTT-core merges into a new array.',
   note='Not decided: accuracy of the round trip; digit order produced by the halving loop as values.')
 CLAIMS['C18'] = dict(
